@@ -272,7 +272,7 @@ func render(toks []xtok, r *rand.Rand, decorate bool) string {
 			if strings.ContainsRune("<>=!", rune(pl)) && strings.ContainsRune("<>=", rune(c)) {
 				need = true
 			}
-			if pl == '/' && c == '*' {
+			if pl == '/' && (c == '*' || c == '/') {
 				need = true
 			}
 			if !decorate {
@@ -287,8 +287,11 @@ func render(toks []xtok, r *rand.Rand, decorate bool) string {
 				case x < 9:
 					sb.WriteString(" /* " + []string{"c", "a + b", "*", "NOT"}[r.Intn(4)] + " */ ")
 				default:
+					if pl == '/' {
+						sb.WriteString(" ") // (a comment directly after a slash would read "//...": kept apart)
+					}
 					sb.WriteString("/**/")
-					if need {
+					if need || c == '/' {
 						sb.WriteString(" ")
 					}
 				}
